@@ -32,7 +32,7 @@ ASSUMPTIONS = [
 def scalar_of(s):
     kind, v = s
     return {"int": int, "float": float, "np_int64": np.int64, "np_int32": np.int32, "np_float64": np.float64,
-            "np_float32": np.float32, "np_float16": np.float16, "np_int16": np.int16, "np_int8": np.int8, "np_uint8": np.uint8, "np_uint16": np.uint16}[kind](v)
+            "np_float32": np.float32, "np_float16": np.float16, "np_longdouble": np.longdouble, "np_int16": np.int16, "np_int8": np.int8, "np_uint8": np.uint8, "np_uint16": np.uint16}[kind](v)
 
 
 def eps_of(dtype) -> float:
@@ -153,7 +153,8 @@ def check_scale(case, ctx: Ctx):
         n = len(case["data"])
         wsum = float(s0_.weight)
         # (scaled sums that fall into the subnormal range have lost digits: no moments to compare there)
-        tiny = any(0 < abs(float(x)) < 1e-290 for x in (s1.sum, s1.sum2, s1.weight, s0_.sum2))
+        tiny = any(0 < abs(float(x)) < 1e-290 for x in (s1.sum, s1.sum2, s1.weight, s0_.sum2)) or (float(s0_.sum) != 0 and float(s1.sum) == 0) \
+            or (float(s0_.sum2) != 0 and float(s1.sum2) == 0)
         if tiny:
             ctx.label("subnormal_statistics_skipped")
         if wsum > 0 and not tiny:
@@ -188,7 +189,7 @@ def scalars(draw):
                                         ("np_uint8", 16), ("np_int32", 70000), ("np_uint16", 300), ("np_int8", 4), ("np_uint8", 2)]))
     elif cls == "pow2":
         v = draw(st.sampled_from(POW2))
-        kind = draw(st.sampled_from(["int", "np_int64", "np_int32"] if float(v).is_integer() else ["float", "np_float64", "np_float32"])) if float(v).is_integer() and draw(st.booleans()) else draw(st.sampled_from(["float", "np_float64", "np_float32"]))
+        kind = draw(st.sampled_from(["int", "np_int64", "np_int32"] if float(v).is_integer() else ["float", "np_float64", "np_float32"])) if float(v).is_integer() and draw(st.booleans()) else draw(st.sampled_from(["float", "np_float64", "np_float32", "np_longdouble"]))
     elif cls == "int":
         v = draw(st.sampled_from(GENERAL_INT))
         kind = draw(st.sampled_from(["int", "np_int64", "np_int32", "float"]))
